@@ -645,9 +645,10 @@ class Renderer:
     """renders one statement; records the optional-spelling choices in self.opts so that the Coq
     side can recompute the token list with Spec.ParseSpec.render"""
 
-    def __init__(self, rng, canonical=False):
+    def __init__(self, rng, canonical=False, force=None):
         self.rng = rng
         self.canonical = canonical
+        self.force = force or {}
         self.kw = keyword_map()
         self.nums = {}
         self.o_as = []
@@ -662,6 +663,18 @@ class Renderer:
 
     def chance(self, p):
         return (not self.canonical) and self.rng.random() < p
+
+    def opt(self, key, p):
+        """an optional spelling: random, or (canonical rendering) what `force` says"""
+        if self.canonical:
+            return bool(self.force.get(key, False))
+        return self.rng.random() < p
+
+    def flags(self):
+        """which optional spellings this rendering used at least once (for shrinking)"""
+        return {"inner": any(self.o_inner), "as": any(self.o_as), "asc": any(self.o_asc),
+                "gspace": any(not x for x in self.o_gsep), "offset_first": self.o_offset_first,
+                "empty_cols": self.o_empty_cols, "show": self.o_show is not None, "semi": self.o_semi}
 
     def kwd(self, w):
         if self.canonical:
@@ -754,7 +767,7 @@ class Renderer:
             out.append(self.kwd("RIGHT"))
             self.o_inner.append(False)
         else:
-            inner = self.chance(0.5)
+            inner = self.opt("inner", 0.5)
             self.o_inner.append(inner)
             if inner:
                 out.append(self.kwd("INNER"))
@@ -777,7 +790,7 @@ class Renderer:
             out += self.prim(d["p"])
             explicit = False
             if d["as"] != "":
-                explicit = self.chance(0.5)
+                explicit = self.opt("as", 0.5)
                 if explicit:
                     out.append(self.kwd("AS"))
                 out.append(self.ident(d["as"]))
@@ -790,7 +803,7 @@ class Renderer:
             out += [self.kwd("GROUP"), self.kwd("BY")]
             for i, c in enumerate(s["group"]):
                 if i:
-                    comma = self.canonical or self.rng.random() < 0.75
+                    comma = not self.opt("gspace", 0.25)
                     self.o_gsep.append(comma)
                     if comma:
                         out.append((",", "p"))
@@ -805,13 +818,13 @@ class Renderer:
                 if ss["type"] == code("DESC"):
                     out.append(self.kwd("DESC"))
                 else:
-                    explicit = self.chance(0.5)
+                    explicit = self.opt("asc", 0.5)
                     if explicit:
                         out.append(self.kwd("ASC"))
                 self.o_asc.append(explicit)
         lim = [self.kwd("LIMIT")] + self.num(int(s["limit"])) if s["la"] else []
         off = [self.kwd("OFFSET")] + self.num(int(s["offset"])) if s["oa"] else []
-        if s["la"] and s["oa"] and self.chance(0.5):
+        if s["la"] and s["oa"] and self.opt("offset_first", 0.5):
             self.o_offset_first = True
             out += off + lim
         else:
@@ -832,7 +845,7 @@ class Renderer:
                         out.append((",", "p"))
                     out.append(self.ident(c))
                 out.append((")", "p"))
-            elif self.chance(0.2):
+            elif self.opt("empty_cols", 0.2):
                 self.o_empty_cols = True
                 out += [("(", "p"), (")", "p")]
             out.append(self.kwd("VALUES"))
@@ -876,7 +889,7 @@ class Renderer:
             out = [self.kwd("USE"), self.ident(s["name"])]
         elif k == "showdb":
             out = [self.kwd("SHOW")]
-            if self.chance(0.5):
+            if self.opt("show", 0.5):
                 w = self.kwd("DATABASES")[0]
                 self.o_show = w
                 out.append((w, "w"))
@@ -884,7 +897,7 @@ class Renderer:
                 out.append(self.kwd("DATABASE"))
         else:
             raise ValueError(k)
-        if self.chance(0.5):
+        if self.opt("semi", 0.5):
             self.o_semi = True
             out.append((";", "p"))
         return out
@@ -922,8 +935,8 @@ class Renderer:
             "true" if self.o_semi else "false")
 
 
-def render_stmt(rng, ast, canonical=False):
+def render_stmt(rng, ast, canonical=False, force=None):
     """-> (text, lexemes, renderer)"""
-    r = Renderer(rng, canonical)
+    r = Renderer(rng, canonical, force)
     lex = r.stmt(ast)
     return r.text(lex), lex, r
